@@ -19,7 +19,8 @@ func init() {
 		Explanation: "C22.a WHO: http.handleLoad and handleBoot reach the database only through the proxy / Store.ReadFrom (no direct store or database call), and Store.load builds a COMMAND_TYPE_LOAD entry that goes through raft.Apply (every node applies it). " +
 			"C22.b TABLE: the command types whose case in CommandProcessor.Process can reach SwappableDB.Swap, restricted to types that have a producer in the module, equal the types for which fsmApply marks the next snapshot Full and resets CDC registration; ReadFrom marks Full, resets CDC and snapshots after its Swap, in that order. " +
 			"C22.c DOM: SwappableDB.Swap closes/removes the current database only after IsValidSQLiteFile(path) held; handleBoot validates the header before ReadFrom; ReadFrom validates the file before the Noop entry and the swap. " +
-			"C22.d WHO by field: Store.dbModifiedTime (the baseline of the 'database changed since last snapshot' test that forces a full snapshot) is stored only by fsmSnapshot's deferred update and fsmRestore — never by the load/boot paths, whose change must stay visible to that test.",
+			"C22.d WHO by field: Store.dbModifiedTime (the baseline of the 'database changed since last snapshot' test that forces a full snapshot) is stored only by fsmSnapshot's deferred update and fsmRestore — never by the load/boot paths, whose change must stay visible to that test. " +
+			"C22.e CONST: the execute request that handleLoad builds for posted SQL text has RollbackOnError set on every path to the Execute call (a rejected dump must leave no open transaction behind).",
 		NotCovered: []string{"contents after restart / join", "the staged-WAL lineage rule is C04.a"},
 		Run:        runC22,
 	})
@@ -105,6 +106,7 @@ func snapshotTypeConst(c *core.Ctx, name string) int64 {
 }
 
 func runC22(c *core.Ctx) {
+	c22LoadText(c)
 	full := snapshotTypeConst(c, "Full")
 	if full < 0 {
 		c.Unk("C22.b", "TABLE", "snapshot.Full", "", "constant snapshot.Full not found")
